@@ -184,8 +184,13 @@ def run(ctx):
         if len(op.terms) == 0:
             op = FermionOperator(((0, 1), (0, 0)), 1.0)
         add("op", op)
-        mk_s = (lambda o=copy.deepcopy(op): fqe.get_sparse_hamiltonian(copy.deepcopy(o)))
+        se0 = rng.choice([0.0, 0.7])
+        mk_s = (lambda o=copy.deepcopy(op), e=se0: fqe.get_sparse_hamiltonian(copy.deepcopy(o), e_0=e))
         makers[add("ham", mk_s())] = mk_s
+        # a single hop + h.c. (the closed-form single-term evolution), with a scalar part
+        hop = FermionOperator(((0, 1), (2, 0)), 1.0) + FermionOperator(((2, 1), (0, 0)), 1.0)
+        mk_h = (lambda e=rng.choice([0.0, 0.5]): fqe.get_sparse_hamiltonian(copy.deepcopy(hop), e_0=e))
+        makers[add("ham", mk_h())] = mk_h
         # a second, longer sparse Hamiltonian (not a single string): its propagation goes through iht()
         op3 = C01.random_fermionop(rng, norb, FermionOperator, True, True, 3)
         if len(op3.terms) >= 3:
@@ -300,6 +305,11 @@ def run(ctx):
                                      f"later in the history (step {step})", {"history": log, "norb": norb})
                 if thunk is not None:
                     val = thunk()
+                    # results of out-of-place calls join the pool now and then: a later in-place operation on them must not
+                    # reach the operands they were computed from (shared sector objects)
+                    if kind in ("apply", "evolve", "add", "sub") and hasattr(val, "sectors") and rng.random() < 0.35 \
+                            and set(val.sectors()) == set(pool[i][1].sectors()):
+                        add("wfn", val)
                     # only calls whose arguments are never mutated later can be replayed: freeze by copying
                     frozen = None
                     if kind in ("apply", "expect", "rdm", "add", "cirq", "vdot", "iht", "evolve"):
